@@ -11,6 +11,7 @@ import os
 from dsim import boot
 from dsim.kernel import K, Scheduler, Deadlock, BudgetExceeded
 from . import rulelib as RL
+from dsim import depth as DP
 
 PROPERTY = "C11"
 SRC_DIR = None      # filled by bin/check.py after boot
@@ -86,10 +87,14 @@ def generate(cls, rng):
     finite = not target.get("unbounded")
     if cls == "coop":
         return dict(target=target,
-                    ops=gen_client_ops(rng, rng.randrange(3, 40),
-                                       rng.choice([2, 2, 3, 4]), finite))
-    nthreads = rng.choice([2, 2, 3, 4])
-    threads = [gen_client_ops(rng, rng.randrange(1, 9), 2, finite)
+                    ops=gen_client_ops(rng,
+                                       rng.randrange(3, DP.pick(40, 120)),
+                                       rng.choice(DP.pick([2, 2, 3, 4],
+                                                          [3, 4, 5, 6])),
+                                       finite))
+    nthreads = rng.choice(DP.pick([2, 2, 3, 4], [3, 4, 4, 5]))
+    threads = [gen_client_ops(rng, rng.randrange(1, DP.pick(9, 16)),
+                              DP.pick(2, 3), finite)
                for _ in range(nthreads)]
     kind = rng.choice(["random", "random", "pb", "pb", "pct", "crit"])
     if kind == "crit":
